@@ -52,11 +52,29 @@ func ToDateTime64(t time.Time, p Precision) DateTime64 {
 	if t.IsZero() {
 		return 0
 	}
-	return DateTime64(t.UnixNano() / p.Scale())
+	// Not using t.UnixNano(): it overflows int64 outside of 1678..2262,
+	// while DateTime64 with precision below 9 covers 1900..2299.
+	var (
+		scale = p.Scale()
+		nsec  = int64(t.Nanosecond())
+		v     = t.Unix()*(1e9/scale) + nsec/scale
+	)
+	if v < 0 && nsec%scale != 0 {
+		// Truncate toward zero, as division of nanoseconds did.
+		v++
+	}
+	return DateTime64(v)
 }
 
 // Time returns DateTime64 as time.Time.
 func (d DateTime64) Time(p Precision) time.Time {
-	nsec := int64(d) * p.Scale()
-	return time.Unix(nsec/1e9, nsec%1e9)
+	// Split into seconds and fraction before scaling to nanoseconds:
+	// int64(d) * scale overflows int64 outside of 1678..2262.
+	var (
+		scale   = p.Scale()
+		perSec  = int64(1e9) / scale
+		seconds = int64(d) / perSec
+		frac    = int64(d) % perSec
+	)
+	return time.Unix(seconds, frac*scale)
 }
